@@ -28,7 +28,7 @@ def OPAQUE(what):
 
 
 class CaseEval(object):
-    def __init__(self, funcnode, absval, decide, resolve=None, depth=0, observe=None):
+    def __init__(self, funcnode, absval, decide, resolve=None, depth=0, observe=None, tables=None):
         """resolve(call) -> the FunctionDef a call goes to (a module-level helper, a method of the same class), or None: such calls
         are evaluated by running the callee on the abstract values of the arguments (up to 3 levels)"""
         self.fn = funcnode
@@ -37,6 +37,7 @@ class CaseEval(object):
         self._resolve = resolve
         self._depth = depth
         self._observe = observe      # observe(expr, env, self) is called for every expression statement, in execution order
+        self._tables = tables or {}  # module-level name -> literal tuple/list of rows: `for a, b in NAME:` is unrolled over it
 
     def _call(self, e, env):
         if self._resolve is None or self._depth >= 3 or e.keywords or any(isinstance(a, ast.Starred) for a in e.args):
@@ -52,7 +53,7 @@ class CaseEval(object):
         env2 = dict((k, v) for k, v in env.items() if k.startswith("<"))
         for p, a in zip(params, e.args):
             env2[p] = self.value(a, env)
-        _, ret = CaseEval(callee, self._absval, self._decide, self._resolve, self._depth + 1).run(env2)
+        _, ret = CaseEval(callee, self._absval, self._decide, self._resolve, self._depth + 1, tables=self._tables).run(env2)
         return None if ret is NORET else ret
 
     # ------------------------------------------------------------ expressions
@@ -154,6 +155,24 @@ class CaseEval(object):
                 except Exception:
                     v = OPAQUE("aug")
                 self._assign(st.target, v, env)
+            elif isinstance(st, ast.For) and not st.orelse and isinstance(st.iter, ast.Name) and st.iter.id not in env \
+                    and isinstance(self._tables.get(st.iter.id), (ast.Tuple, ast.List)) and len(self._tables[st.iter.id].elts) <= 16 \
+                    and not any(isinstance(x, (ast.Break, ast.Continue)) for b_ in st.body for x in ast.walk(b_)):
+                # a loop over a literal module-level table: run the body once per row, in order
+                rows = self._tables[st.iter.id].elts
+                for row in rows:
+                    if isinstance(st.target, (ast.Tuple, ast.List)) and isinstance(row, (ast.Tuple, ast.List)) \
+                            and len(row.elts) == len(st.target.elts):
+                        for tt, rv in zip(st.target.elts, row.elts):
+                            self._assign(tt, self.value(rv, env), env)
+                    else:
+                        self._assign(st.target, self.value(row, env), env)
+                    kind, env_, ret_ = self._block(list(st.body), env)
+                    if kind == "ret":
+                        if ret_ is UNKNOWN:
+                            return "ret", env_, UNKNOWN
+                        return kind, env_, ret_
+                    env = env_
             elif isinstance(st, (ast.For, ast.While)):
                 self._loop_effects(st, env)
             elif isinstance(st, ast.If):
